@@ -57,6 +57,13 @@ def deb_programs(thorough):
                 if k:
                     out.append({"iv": iv, "threads": {"p": seq}, "fam": "deb_seq"})
                     out.append({"iv": iv, "threads": {"p": seq + [["sleep", 3], ["stop"], ["join"]]}, "fam": "deb_seq"})
+    # the same file modified again and again: EQUAL events (distinct objects) inside one interval
+    for gs in ((1, 1), (1,), (0, 1), (1, 0), (2, 1), (1, 3)):
+        seq = [["ev", 1]]
+        for i, g in enumerate(gs):
+            seq += ([["sleep", g]] if g else []) + [["ev", i + 2]]
+        out.append({"iv": 2, "equal": True, "threads": {"p": seq}, "fam": "deb_seq"})
+        out.append({"iv": 2, "equal": True, "threads": {"p": seq + [["sleep", 3], ["stop"], ["join"]]}, "fam": "deb_seq"})
     # two producers (arrival order is decided by the lock), stop from a third thread, slow callbacks
     for iv in (2, 0):
         out.append({"iv": iv, "threads": {"p": [["ev", 1], ["sleep", 1], ["ev", 3]], "q": [["ev", 2]]}, "fam": "deb_conc"})
@@ -87,6 +94,9 @@ def ar_programs(thorough):
         out.append((dict(o, fam="ar_seq", threads={"app": seq}), b_small))
         out.append((dict(o, fam="ar_seq", threads={"app": [["ev", "m"], ["ev", "c"], ["ev", "m"], ["settle"]]}), b_small))
         out.append((dict(o, fam="ar_seq", threads={"app": [["settle"], ["ev", "m"], ["settle"], ["stop"]]}), b_small))
+    # stop() before start(): nothing may be spawned afterwards
+    for o in allopts[:4]:
+        out.append((dict(o, fam="ar_seq", nostart=True, threads={"app": [["stop"], ["start"], ["settle"], ["ev", "m"], ["settle"]]}), 0))
     # an event while the child exits by itself
     for o in allopts:
         if o["kill_after"] == 0 and not thorough:
